@@ -57,7 +57,54 @@ impl Prop for C27 {
             let mut rid = 1u64;
             // supply of requests per round: scarce (< number of subscriptions) most of the time
             let supply_mode = rng.weighted(&[5, 2, 1]);
+            let mut live: Vec<u64> = ids.clone();       // subscriptions the generator believes present
+            let mut cur: Vec<u64> = prios.clone();
+            let mut next_id = 41u64;
+            let mut force_elapsed = 0;                   // after `add`: its first two ticks must count as elapsed
             for _ in 0..rounds {
+                // between ticks: ModifySubscription changes a priority (often: two priorities are
+                // flipped), DeleteSubscriptions removes one, CreateSubscription adds one
+                match rng.weighted(&[6, 3, 2, 1, 1]) {
+                    1 if live.len() >= 2 => {
+                        let a = rng.below(live.len() as u64) as usize;
+                        let mut b_ = rng.below(live.len() as u64) as usize;
+                        if b_ == a {
+                            b_ = (a + 1) % live.len();
+                        }
+                        let (ia, ib) = (ids.iter().position(|x| *x == live[a]).unwrap(), ids.iter().position(|x| *x == live[b_]).unwrap());
+                        let (pa, pb) = (cur[ia], cur[ib]);
+                        out.push(format!("setprio {} {}", live[a], pb));
+                        out.push(format!("setprio {} {}", live[b_], pa));
+                        cur[ia] = pb;
+                        cur[ib] = pa;
+                    }
+                    2 if !live.is_empty() => {
+                        let a = rng.below(live.len() as u64) as usize;
+                        let ia = ids.iter().position(|x| *x == live[a]).unwrap();
+                        let p = match rng.weighted(&[2, 1, 1]) {
+                            0 => rng.below(256),
+                            1 => 0,
+                            _ => 255,
+                        };
+                        out.push(format!("setprio {} {}", live[a], p));
+                        cur[ia] = p;
+                    }
+                    3 if live.len() >= 2 => {
+                        let a = rng.below(live.len() as u64) as usize;
+                        out.push(format!("remove {}", live[a]));
+                        live.remove(a);
+                    }
+                    4 if ids.len() < 8 => {
+                        let p = rng.below(256);
+                        out.push(format!("add {} {} {} {} {}", next_id, p, b(rng.chance(5, 6)), ka, life));
+                        ids.push(next_id);
+                        cur.push(p);
+                        live.push(next_id);
+                        next_id += 1;
+                        force_elapsed = 2;
+                    }
+                    _ => {}
+                }
                 let pubs = match supply_mode {
                     0 => rng.below(k as u64),
                     1 => rng.below(2 * k as u64 + 2),
@@ -67,7 +114,11 @@ impl Prop for C27 {
                     out.push(format!("pub {}", rid));
                     rid += 1;
                 }
-                let e = !rng.chance(1, 8);
+                let mut e = !rng.chance(1, 8);
+                if force_elapsed > 0 {
+                    force_elapsed -= 1;
+                    e = true;
+                }
                 let w = rng.chance(2, 3);
                 out.push(format!("timer {} {}", b(e), b(w)));
             }
@@ -105,7 +156,7 @@ impl R {
             .iter()
             .map(|id| {
                 let s = w.subs.get(*id).unwrap();
-                format!("{}:{}:{}:{}:{}", id, s.verif_state(), s.lifetime_counter(), s.keep_alive_counter(), s.verif_notifications_len())
+                format!("{}:p{}:{}:{}:{}:{}", id, s.priority(), s.verif_state(), s.lifetime_counter(), s.keep_alive_counter(), s.verif_notifications_len())
             })
             .collect();
         let rq: Vec<String> = w.subs.publish_request_ids().iter().map(|r| r.to_string()).collect();
@@ -232,6 +283,39 @@ impl Runner for R {
                 // are concatenated, and the situations change in between
                 let v = if full { Verdict::Ok } else { self.oracle(&before, &resps, true) };
                 (format!("ok res={} {}", if res.is_ok() { "ok" } else { "toomany" }, self.show(&resps)), v)
+            }
+            ["setprio", i, p] => {
+                // what ModifySubscription does: get_mut + set_priority
+                let id: u32 = i.parse().unwrap();
+                let p: u8 = p.parse::<u64>().unwrap() as u8;
+                let w = self.w.as_mut().unwrap();
+                match w.subs.get_mut(id) {
+                    Some(sub) => {
+                        opcua::verif_hooks::subs::subscription_set_priority(sub, p);
+                        self.prio.insert(id, p);
+                        (format!("ok {}", self.show(&[])), Verdict::Ok)
+                    }
+                    None => ("err nosub".to_string(), Verdict::Ok),
+                }
+            }
+            ["remove", i] => {
+                // what DeleteSubscriptions does
+                let id: u32 = i.parse().unwrap();
+                let w = self.w.as_mut().unwrap();
+                let was = w.subs.remove(id).is_some();
+                (format!("ok res={} {}", if was { "removed" } else { "none" }, self.show(&[])), Verdict::Ok)
+            }
+            ["add", i, p, t, ka, life] => {
+                let id: u32 = i.parse().unwrap();
+                let p: u8 = p.parse::<u64>().unwrap() as u8;
+                let item = *t != "0";
+                let w = self.w.as_mut().unwrap();
+                let keep_now = w.last_now;
+                w.add_subscription(fx, id, true, INTERVAL_MS, life.parse().unwrap(), ka.parse().unwrap(), p, item);
+                w.last_now = keep_now;
+                self.prio.insert(id, p);
+                self.item.insert(id, item);
+                (format!("ok {}", self.show(&[])), Verdict::Ok)
             }
             _ => ("bad-op".to_string(), Verdict::Ok),
         }
